@@ -397,7 +397,11 @@ func runRoundScenario(seed uint64, size int, t *Trace) error {
 			if overlap && i == hung {
 				plans[i] = plan{"reset", nil}
 			}
-			fs[i].ss.set(plans[i].mode, plans[i].stream)
+			deliver := plans[i].mode
+			if deliver == "reply" && r.Chance(30) {
+				deliver = "chunked" // the same reply, arriving in several TCP segments
+			}
+			fs[i].ss.set(deliver, plans[i].stream)
 			i := i
 			fs[i].ss.mu.Lock()
 			fs[i].ss.conns = 0
